@@ -2281,6 +2281,14 @@ emit_member_PER_constraints(arg_t *arg, asn1p_expr_t *expr, const char *pfx) {
 			MKID(expr), expr->_type_unique_index);
 		OUT("asn_PER_MAP_%s_%d_c2v\t/* PER code to value map */\n",
 			MKID(expr), expr->_type_unique_index);
+	} else if(etype == ASN_STRING_NumericString
+			&& !expr->combined_constraints) {
+		/*
+		 * No alphabet table was emitted (the type is not constrained),
+		 * but 11 characters in 4 bits still have to be sent as indexes.
+		 */
+		OUT("asn_DEF_NumericString_v2c,\n");
+		OUT("asn_DEF_NumericString_c2v\n");
 	} else if(etype & ASN_STRING_KM_MASK) {
 		DEBUG("No PER value map necessary for %s", MKID(expr));
 		OUT("0, 0\t/* No PER character map necessary */\n");
